@@ -422,7 +422,7 @@ pub const F_FW64: u8 = 7;
 pub const F_GPE: u8 = 8;
 pub const F_FIELD: u8 = 9;
 /// (name, offset, width in bytes; 12 = GAS) — ACPI 6.5 table 5.9
-pub const FADT_FIELDS: [(&str, usize, usize); 52] = [
+pub const FADT_FIELDS: [(&str, usize, usize); 55] = [
     ("firmware_ctrl", 36, 4),
     ("dsdt", 40, 4),
     ("preferred_pm_profile", 45, 1),
@@ -475,6 +475,10 @@ pub const FADT_FIELDS: [(&str, usize, usize); 52] = [
     ("sleep_control_reg", 244, 12),
     ("sleep_status_reg", 256, 12),
     ("hypervisor_vendor_identity", 268, 8),
+    // public header / version fields a caller may set as well
+    ("major_version", 8, 1),
+    ("fadt_minor_version", 131, 1),
+    ("oem_revision", 24, 4),
 ];
 pub const FADT_FLAG_BITS: [u32; 25] = [
     1 << 0,
@@ -567,7 +571,7 @@ pub fn fadt_apply(b: fadt::FADTBuilder, op: &Op) -> fadt::FADTBuilder {
                 36 => reset_reg:12, 37 => reset_value:1, 38 => arm_boot_arch:2, 39 => x_firmware_ctrl:8, 40 => x_dsdt:8,
                 41 => x_pm1a_evt_blk:12, 42 => x_pm1b_evt_blk:12, 43 => x_pm1a_cnt_blk:12, 44 => x_pm1b_cnt_blk:12, 45 => x_pm2_cnt_blk:12,
                 46 => x_pm_tmr_blk:12, 47 => x_gpe0_blk:12, 48 => x_gpe1_blk:12, 49 => sleep_control_reg:12, 50 => sleep_status_reg:12,
-                51 => hypervisor_vendor_identity:8);
+                51 => hypervisor_vendor_identity:8, 52 => major_version:1, 53 => fadt_minor_version:1, 54 => oem_revision:4);
             b
         }
     }
@@ -668,7 +672,7 @@ impl Table for Fadt {
             }
         }
         if level > 0 {
-            for i in 0..52 {
+            for i in 0..55 {
                 v.push(Op::new(F_FIELD, i, 3));
             }
         }
@@ -712,7 +716,7 @@ impl Table for Fadt {
         match k {
             F_FLAG => (0..25).collect(),
             F_PROFILE => (0..9).collect(),
-            F_FIELD => (0..52).collect(),
+            F_FIELD => (0..55).collect(),
             _ => vec![0],
         }
     }
